@@ -1,7 +1,46 @@
 import Rdm.Ops.Codec
+import Rdm.Generated.Facts
 namespace Rdm.Ops
 open Rdm
 
-def pipelineOps : List (String × (List SExp → R SExp)) := []
+def choquetEpsF : Float := Num.ofConst Facts.choquetEps
+
+/-- `(listener-rank dmp)` → `(ok (wcrit...))` | `(err)` -/
+def opListenerRank (args : List SExp) : R SExp := do
+  match args with
+  | [d] =>
+    let dmp : DMP Float ← decDMP d
+    pure (encR (rankAsc choquetEpsF dmp) fun l => .list (l.map encWCrit))
+  | _ => throw "listener-rank: arity"
+
+/-- `(listener-removed mp (crit...))` → `(ok mp')` | `(err)` -/
+def opListenerRemoved (args : List SExp) : R SExp := do
+  match args with
+  | [mp, left] =>
+    let mp : MParams Float ← decMParams mp
+    pure (encR (onRemoved mp (← decCrits left)) encMParams)
+  | _ => throw "listener-removed: arity"
+
+/-- `(listener-added mp crit ref (draws...))` → `(ok addition consumed)` | `(err)` -/
+def opListenerAdded (args : List SExp) : R SExp := do
+  match args with
+  | [mp, c, r, ds] =>
+    let mp : MParams Float ← decMParams mp
+    let ds : List Float ← decNums ds
+    let res := onAdded mp (← decCrit c) (← decCrit r) ds
+    pure (encR res fun (a, rest) => .list [encAddition a, SExp.nat (ds.length - rest.length)])
+  | _ => throw "listener-added: arity"
+
+/-- `(listener-merge mp addition)` → `(ok mp')` | `(err)` -/
+def opListenerMerge (args : List SExp) : R SExp := do
+  match args with
+  | [mp, a] =>
+    let mp : MParams Float ← decMParams mp
+    pure (encR (mergeParams mp (← decAddition a)) encMParams)
+  | _ => throw "listener-merge: arity"
+
+def pipelineOps : List (String × (List SExp → R SExp)) :=
+  [("listener-rank", opListenerRank), ("listener-removed", opListenerRemoved),
+   ("listener-added", opListenerAdded), ("listener-merge", opListenerMerge)]
 
 end Rdm.Ops
